@@ -59,6 +59,7 @@ type idpLogEntry struct {
 	Mode        string            `json:"mode"`
 	Form        map[string]string `json:"form,omitempty"`
 	At          int64             `json:"at_ns"`
+	Reply       string            `json:"reply,omitempty"` // par: the request_uri issued (healthy answers only)
 }
 
 type fakeIDP struct {
@@ -74,7 +75,14 @@ type fakeIDP struct {
 	salt     string   // makes minted token strings high-entropy, so that scanning logs for them is unambiguous
 	minted   []string // every access / refresh / ID token string handed out
 	parReqs  map[string]url.Values
-	nextMode string // "", "4xx", "5xx", "badjson"
+	nextMode string // "", "4xx", "5xx", "badjson": fault for the NEXT request only (consumed by it)
+	// sticky: a persistent fault per endpoint path ("/par", "/token"), in force until cleared (setSticky(path, "")). The modes of
+	// nextMode, plus "hang" (the connection is accepted and the request read, but no answer is ever written: the handler returns
+	// when the client gives up), and for /par "bad201" (201 whose body is not JSON) and "nouri" (201 {} - no request_uri member).
+	// A one-shot nextMode takes precedence over the sticky mode.
+	sticky map[string]string
+	// modeQueue: one-shot faults for the next requests, one per request ("" = answer healthily), used when nextMode is empty
+	modeQueue []string
 	log      []idpLogEntry
 	idTokens map[string]int // serialized id token -> id
 	inflight int
@@ -136,7 +144,59 @@ func (p *fakeIDP) authorize(params url.Values, sid, acr string) string {
 	return code
 }
 
+// takeMode returns the fault for the request being served (p.mu held): the one-shot nextMode, else the head of the queue,
+// else the endpoint's sticky mode.
+func (p *fakeIDP) takeMode(path string) string {
+	mode := p.nextMode
+	p.nextMode = ""
+	if mode == "" && len(p.modeQueue) > 0 {
+		mode, p.modeQueue = p.modeQueue[0], p.modeQueue[1:]
+		return mode
+	}
+	if mode == "" {
+		mode = p.sticky[path]
+	}
+	return mode
+}
+
+// setSticky installs (mode != "") or clears (mode == "") the persistent fault of one endpoint path.
+func (p *fakeIDP) setSticky(path, mode string) {
+	p.mu.Lock()
+	defer p.mu.Unlock()
+	if p.sticky == nil {
+		p.sticky = map[string]string{}
+	}
+	if mode == "" {
+		delete(p.sticky, path)
+	} else {
+		p.sticky[path] = mode
+	}
+}
+
+// hangs implements the sticky mode "hang": the request is logged (its form did travel over the back channel) and the handler
+// blocks, without holding the provider's mutex, until the client abandons the request (its own timeout, or a cancellation).
+func (p *fakeIDP) hangs(r *http.Request) bool {
+	p.mu.Lock()
+	if p.nextMode != "" || len(p.modeQueue) > 0 || p.sticky[r.URL.Path] != "hang" {
+		p.mu.Unlock()
+		return false
+	}
+	r.ParseForm()
+	kind := map[string]string{"/par": "par", "/token": "code"}[r.URL.Path]
+	if r.PostForm.Get("grant_type") == "refresh_token" {
+		kind = "refresh"
+	}
+	p.log = append(p.log, idpLogEntry{Kind: kind, Mode: "hang", Form: formMap(r.PostForm), RT: r.PostForm.Get("refresh_token"), Code: r.PostForm.Get("code"),
+		At: int64(time.Since(p.start))})
+	p.mu.Unlock()
+	<-r.Context().Done()
+	return true
+}
+
 func (p *fakeIDP) ServeHTTP(w http.ResponseWriter, r *http.Request) {
+	if (r.URL.Path == "/token" || r.URL.Path == "/par") && p.hangs(r) {
+		return
+	}
 	switch r.URL.Path {
 	case "/token":
 		p.token(w, r)
@@ -159,13 +219,31 @@ func (p *fakeIDP) par(w http.ResponseWriter, r *http.Request) {
 	r.ParseForm()
 	p.mu.Lock()
 	defer p.mu.Unlock()
-	mode := p.nextMode
-	p.nextMode = ""
-	p.log = append(p.log, idpLogEntry{Kind: "par", Accepted: mode == "", Mode: mode, Form: formMap(r.PostForm), At: int64(time.Since(p.start))})
+	mode := p.takeMode("/par")
+	e := idpLogEntry{Kind: "par", Accepted: mode == "", Mode: mode, Form: formMap(r.PostForm), At: int64(time.Since(p.start))}
+	uri := ""
+	if mode == "" {
+		uri = fmt.Sprintf("urn:par:%d", len(p.parReqs)+1)
+		e.Reply = uri
+	}
+	p.log = append(p.log, e)
+	switch mode {
+	case "bad201", "nouri":
+		w.Header().Set("Content-Type", "application/json")
+		w.WriteHeader(http.StatusCreated)
+		if mode == "bad201" {
+			w.Write([]byte(`<html>201 but not json</html>`))
+		} else {
+			w.Write([]byte(`{"expires_in":60}`))
+		}
+		return
+	}
 	if p.fault(w, mode) {
 		return
 	}
-	uri := fmt.Sprintf("urn:par:%d", len(p.parReqs)+1)
+	if uri == "" { // a mode this endpoint does not know: answer healthily
+		uri = fmt.Sprintf("urn:par:%d", len(p.parReqs)+1)
+	}
 	p.parReqs[uri] = r.PostForm
 	w.Header().Set("Content-Type", "application/json")
 	w.WriteHeader(http.StatusCreated)
@@ -209,8 +287,7 @@ func (p *fakeIDP) token(w http.ResponseWriter, r *http.Request) {
 	r.ParseForm()
 	p.mu.Lock()
 	defer p.mu.Unlock()
-	mode := p.nextMode
-	p.nextMode = ""
+	mode := p.takeMode("/token")
 	f := r.PostForm
 	switch f.Get("grant_type") {
 	case "refresh_token":
